@@ -9,6 +9,7 @@ From Coq Require Import List Arith Lia Bool Permutation.
 Import ListNotations.
 From TB Require Import ExecModel ExecProofs BalanceModel BalanceProofs ExecRun ExecRunProofs.
 From TB Require SystemModel SystemProofs EstablishProofs TerminationProofs.
+From TB Require Import ComposeProofs.
 
 Section C05.
 Variable piece : Type.
@@ -92,6 +93,67 @@ Proof. exact (fun Hfun => TerminationProofs.fault_free_run_completes content es 
 Theorem C05_stuck_means_all_returned s : (forall s', ~ SystemModel.sstep s s') -> TerminationProofs.finished s.
 Proof. exact (TerminationProofs.stuck_is_finished s). Qed.
 
+(** EXECUTOR AND EVALUATIONS TOGETHER (ComposeProofs.v).  A worker that has popped piece [w] performs
+    the steps of program [w] of the pool - that worker, that program - and takes the executor's
+    "solved" step once the program has returned; [nfiles] / [gid] as above, pieces numbered. *)
+Section C05_composed.
+Variable nfiles gid : nat -> nat.
+Variable n : nat.
+Notation Bn := (balanced nfiles gid).
+Variable q0 : nat -> list nat.
+Hypothesis Hq0 : forall i, n <= i -> q0 i = [].
+
+(** Every run of the composition is a run of the executor model and a path of the system of
+    SystemModel.v: all the theorems about either hold of it. *)
+Theorem C05_composed_run_is_executor_run c0 c : creach n Bn c0 c -> ExecModel.reach nat n Bn (ce c0) (ce c).
+Proof. exact (proj_exec n Bn c0 c). Qed.
+Theorem C05_composed_run_is_system_path c0 c : creach n Bn c0 c -> SystemModel.sreach (cs c0) (cs c).
+Proof. exact (proj_sys n Bn c0 c). Qed.
+
+(** It terminates: no infinite run from any state whose executor part is reachable. *)
+Theorem C05_composed_terminates c : ExecModel.reach nat n Bn (ExecModel.init nat n q0) (ce c) ->
+  Acc (fun c'' c' => cany n Bn c' c'') c.
+Proof.
+  exact (compose_terminates n Bn (balanced_perm nat nfiles gid) (balanced_out nat nfiles gid) (balanced_mono nat nfiles gid)
+           (balanced_total nat nfiles gid) q0 Hq0 c).
+Qed.
+
+(** It does not get stuck: while some worker has not finished, some worker can move - an executor
+    action, a step of the program it is evaluating, or "solved" when that program has returned. *)
+Theorem C05_composed_progress f pool c : (forall w, In w (flat nat n q0) -> w < length pool) ->
+  creach n Bn (cinit n q0 f pool) c -> (exists t, t < n /\ pc (ce c) t <> PDone) -> exists c', cany n Bn c c'.
+Proof.
+  exact (compose_progress n Bn (balanced_perm nat nfiles gid) (balanced_out nat nfiles gid) (balanced_mono nat nfiles gid)
+           (balanced_total nat nfiles gid) q0 Hq0 f pool c).
+Qed.
+
+(** When every worker has finished: the solved list is a permutation of the work and the program of
+    every piece has returned - each was run to completion ... *)
+Theorem C05_composed_exactly_once f pool c : creach n Bn (cinit n q0 f pool) c -> (forall t, t < n -> pc (ce c) t = PDone) ->
+  Permutation (solved (ce c)) (flat nat n q0) /\
+  forall w, In w (flat nat n q0) -> exists o, nth_error (SystemModel.s_pool (cs c)) w = Some (SolverModel.Ret o).
+Proof.
+  exact (compose_exactly_once n Bn (balanced_perm nat nfiles gid) (balanced_out nat nfiles gid) (balanced_mono nat nfiles gid)
+           (balanced_total nat nfiles gid) q0 Hq0 f pool c).
+Qed.
+
+(** Complete runs exist (so the statements above are about something): termination + progress. *)
+Theorem C05_composed_run_completes f pool : (forall w, In w (flat nat n q0) -> w < length pool) ->
+  exists c, creach n Bn (cinit n q0 f pool) c /\ forall t, t < n -> pc (ce c) t = PDone.
+Proof.
+  exact (compose_completes n Bn (balanced_perm nat nfiles gid) (balanced_out nat nfiles gid) (balanced_mono nat nfiles gid)
+           (balanced_total nat nfiles gid) q0 Hq0 f pool).
+Qed.
+
+(** ... by one worker: two workers never evaluate the same piece. *)
+Theorem C05_one_worker_per_piece e t t' w : NoDup (flat nat n q0) -> ExecModel.reach nat n Bn (ExecModel.init nat n q0) e ->
+  t < n -> t' < n -> pc e t = PSolve w -> pc e t' = PSolve w -> t = t'.
+Proof.
+  exact (fun Hnd => solver_unique n Bn (balanced_perm nat nfiles gid) (balanced_out nat nfiles gid) (balanced_mono nat nfiles gid)
+           (balanced_total nat nfiles gid) q0 Hq0 Hnd e t t' w).
+Qed.
+End C05_composed.
+
 Print Assumptions C05_work_conserved.
 Print Assumptions C05_exactly_once.
 Print Assumptions C05_deadlock_free.
@@ -103,3 +165,10 @@ Print Assumptions C05_accepted_log_is_model_path.
 Print Assumptions C05_every_evaluation_terminates.
 Print Assumptions C05_fault_free_run_completes.
 Print Assumptions C05_stuck_means_all_returned.
+Print Assumptions C05_composed_run_is_executor_run.
+Print Assumptions C05_composed_run_is_system_path.
+Print Assumptions C05_composed_terminates.
+Print Assumptions C05_composed_progress.
+Print Assumptions C05_composed_exactly_once.
+Print Assumptions C05_one_worker_per_piece.
+Print Assumptions C05_composed_run_completes.
